@@ -54,7 +54,9 @@ def derived():
 
 def subqueries():
     out = []
-    subs_unc = ["SELECT b FROM y", "SELECT b FROM y WHERE c > 0", "SELECT MAX(b) FROM y", "SELECT b FROM y GROUP BY b"]
+    subs_unc = ["SELECT b FROM y", "SELECT b FROM y WHERE c > 0", "SELECT MAX(b) FROM y", "SELECT b FROM y GROUP BY b",
+                "SELECT b FROM y GROUP BY b, c", "SELECT MAX(b) FROM y GROUP BY c", "SELECT b FROM y GROUP BY b HAVING COUNT(*) > 1",
+                "SELECT DISTINCT b FROM y", "SELECT b FROM y ORDER BY b, c LIMIT 1", "SELECT b + 1 FROM y"]
     subs_cor = ["SELECT b FROM y WHERE y.c = x.b", "SELECT y.b FROM y WHERE y.c > x.b", "SELECT b FROM y WHERE y.c = x.b AND y.b > 0"]
     for s in subs_unc + subs_cor:
         out.append(f"SELECT a FROM x WHERE a IN ({s})")
@@ -115,7 +117,7 @@ def programs(tier: str, seed: int):
     for name, progs in fams:
         if tier == "quick":
             rnd.shuffle(progs)
-            keep = {"join": 60, "derived": 60, "subquery": 60, "aggregate": 22, "setop": 24, "order": 26}[name]
+            keep = {"join": 60, "derived": 60, "subquery": 90, "aggregate": 22, "setop": 24, "order": 26}[name]
             progs = progs[:keep]
         out += [(name, p) for p in progs]
     return out
